@@ -1,6 +1,8 @@
 package cdom
 
 import (
+	"strings"
+
 	"lcverif/lcw"
 	"lcverif/rng"
 )
@@ -14,6 +16,106 @@ func maybeCLI(in *lcw.Input, sub uint64) {
 	if in.CLI == 0 && r.Chance(1, 4) {
 		in.CLI = 1 + r.Intn(6)
 	}
+	if in.CLI > 0 && in.Conf == "" && r.Chance(1, 2) {
+		WithConfigFile(in, r)
+	}
+}
+
+// WithConfigFile puts a configuration file (sometimes a chain of two) into the world which, by
+// the documentation (doc/layercake_config.adoc), resolves to exactly the configuration of the
+// case: every key is optional, directory values may be spelled in any way that is the same
+// directory (doubled or trailing slashes, "/./", relative to the base path), keys in any case,
+// comments and blank lines anywhere.  Process-level steps pass it with -config.
+func WithConfigFile(in *lcw.Input, r *rng.R) {
+	if len(in.FS) == 0 || string(in.FS[0].Path) != in.Cfg.Base || in.FS[0].Kind != "d" {
+		return
+	}
+	cfg := in.Cfg
+	spell := func(abs, rel string) string {
+		switch r.Intn(8) {
+		case 0:
+			return abs + "/"
+		case 1:
+			i := 1 + r.Intn(len(abs)-1)
+			for abs[i] != '/' && i > 0 {
+				i--
+			}
+			return abs[:i] + "/" + abs[i:] // a doubled slash somewhere
+		case 2:
+			return cfg.Base + "/./" + rel
+		case 3:
+			return rel // relative to the base path
+		case 4:
+			return "./" + rel + "/"
+		case 5:
+			return cfg.Base + "/" + rel + "/../" + rel
+		}
+		return abs
+	}
+	type kv struct{ k, v string }
+	var keys []kv
+	base := ""
+	switch r.Intn(4) {
+	case 0:
+		base = cfg.Base
+	case 1:
+		base = cfg.Base + "/"
+	case 2:
+		base = cfg.Base + "/."
+	}
+	in.ConfBase = base == "" || r.Chance(1, 3)
+	if base != "" {
+		keys = append(keys, kv{"BASEPATH", base})
+	}
+	if r.Chance(2, 3) {
+		keys = append(keys, kv{"LAYERS", spell(cfg.Layers, "layers")})
+	}
+	if r.Chance(2, 3) {
+		keys = append(keys, kv{"EXPORTS", spell(cfg.Exports, "export")})
+	}
+	for _, x := range []kv{{"BUILDROOT", cfg.BuildRoot}, {"BINPKGS", cfg.BinPkg}, {"GENERATED_FILES", cfg.Gen},
+		{"OVERFS_WORKDIR", cfg.Work}, {"OVERFS_UPPERDIR", cfg.Upper}, {"EXPORT_BINPKGS", cfg.ExpBinPkg},
+		{"EXPORT_GENERATED_FILES", cfg.ExpGen}, {"CHROOT_EXEC", "/usr/bin/chroot"}} {
+		if r.Chance(1, 4) {
+			keys = append(keys, x)
+		}
+	}
+	for i := len(keys) - 1; i > 0; i-- {
+		j := r.Intn(i + 1)
+		keys[i], keys[j] = keys[j], keys[i]
+	}
+	render := func(ks []kv, next string) string {
+		out := r.Pick([]string{"", "# layercake configuration\n", "\n// site settings\n\n"})
+		for _, x := range ks {
+			k := x.k
+			if r.Chance(1, 4) {
+				k = strings.ToLower(k)
+			}
+			out += r.Pick([]string{"", "  ", "\t"}) + k + r.Pick([]string{" = ", "=", "  =\t", " ="}) + x.v + r.Pick([]string{"", " ", "\t"}) + "\n"
+			if r.Chance(1, 5) {
+				out += r.Pick([]string{"\n", "# comment\n", "   \n"})
+			}
+		}
+		if next != "" {
+			out += "CONFIGFILE = " + next + "\n"
+		}
+		return out
+	}
+	in.Conf = cfg.Base + "/" + r.Pick([]string{"lc.conf", "site.conf", "layercake.conf"})
+	first, second := keys, []kv(nil)
+	if len(keys) > 1 && r.Chance(1, 3) { // a chain of two files: the first one wins where both speak
+		cut := 1 + r.Intn(len(keys)-1)
+		first, second = keys[:cut], keys[cut:]
+		if r.Chance(1, 2) { // the second file repeats a key of the first with another value: overridden
+			second = append(append([]kv{}, second...), kv{first[0].k, "/somewhere/else"})
+		}
+	}
+	next := ""
+	if second != nil {
+		next = cfg.Base + "/second.conf"
+		in.FS = append(in.FS, lcw.Entry{Path: lcw.B(next), Kind: "f", Data: lcw.B(render(second, ""))})
+	}
+	in.FS = append(in.FS, lcw.Entry{Path: lcw.B(in.Conf), Kind: "f", Data: lcw.B(render(first, next))})
 }
 
 // removeForced: a populated layer whose gentle removal cannot work because <name>~removed is taken
